@@ -61,7 +61,10 @@ def int_to_roman(num: int) -> str:
     Convert an integer to Roman ordinal.
     """
     def roman_num(value: int) -> Iterator[str]:
-        if not value:
+        if abs(value) > 100000:
+            yield str(value)  # out of the range that can be reasonably represented
+            return
+        elif not value:
             yield '0'
             return
         elif value < 0:
